@@ -49,7 +49,18 @@ META = {
                   "manifold meshes: theorem C01_compute_total); mesh_data.py's edge / corner completion is modelled (gen_edges, "
                   "gen_corners; C01_build_mesh_of) but the check feeds the model the finished object's own containers and verifies "
                   "them per case (edges_ok_b, corner container = concatenation of the faces); a 'faces removed' re-wrap route is "
-                  "not generated (no public removal API).",
+                  "not generated (no public removal API). "
+                  "Deliberately left free: the exception class / message of a call that names no element (an id past the end, a "
+                  "vertex pair that is no edge, a vertex not in the face, a vertex tuple that is no face, a face not incident to "
+                  "the edge) - there a refusal and the conventional None / False are both accepted, and for ids past the end any "
+                  "answer; conversely any exception on a call that names an element is a violation whatever its class; the "
+                  "direction in which a ring around a vertex is listed (either way round; closed rings also up to rotation) and "
+                  "the mutual alignment of the four rings when listed the other way round; the order of boundary/interior edge "
+                  "and vertex lists, of the faces around a face (multiset), the starting side of face_to_vertices / "
+                  "face_to_corners / face_to_edges, which shared side common_edge names and in which vertex order; unsorted "
+                  "neighbourhoods as sets; list vs tuple, numpy vs python scalars, the type of truth values; warnings, log lines, "
+                  "extra attributes; rows of an edge the caller declared twice. NOT free: (min,max) edge rows, None for a border "
+                  "side, local indices, ids.",
 }
 
 HEADER = """From Coq Require Import ZArith List Bool.
@@ -85,9 +96,9 @@ def ans_term(o):
         return "(ABool %s)" % coq_bool(o[1])
     if k == "list":
         return "(AList %s)" % coq_list([oz(x) for x in o[1]])
-    if k == "err" and o[1] in ERRS:
-        return "(AErr %s)" % ERRS[o[1]]
-    return "(AErr EFuel)"   # an exception class / value the model never produces: forces a disagreement
+    if k == "err":
+        return "(AErr %s)" % ERRS.get(o[1], "EType")     # which exception class is raised is left free
+    return "(AErr EFuel)"   # a value of a kind no answer has: compared as a refusal where a refusal is admissible
 
 
 def query_term(q):
@@ -105,7 +116,9 @@ def case_term(case, res):
     faces = coq_list([zlist(F) for F in case["faces"]])
     edges = coq_list(["(%s, %s)" % (zlit(a), zlit(b)) for a, b in res["edges"]])
     corners = coq_list(["(%s, %s)" % (zlit(a), zlit(b)) for a, b in zip(res["corner_elem"], res["corner_adj"])])
-    script = coq_list(["(%s, %s)" % (query_term(q), ans_term(o)) for q, o in zip(case["script"], res["obs"])])
+    B = O.Brute(case["nv"], case["faces"], res["edges"])
+    script = coq_list(["(%s, %s, %s)" % (query_term(q), ans_term(o), coq_bool(O.is_free(B, q)))
+                       for q, o in zip(case["script"], res["obs"])])
     return "(%s, %s, %s, %s, %s, %s)" % (zlit(case["nv"]), faces, edges, corners, coq_bool(case["sort"]), script)
 
 
